@@ -306,12 +306,34 @@ func genProxy(r *vrng) cleaf {
 	var opts []string
 	hc := map[string]any{}
 	active, passive, lb := map[string]any{}, map[string]any{}, map[string]any{}
+	// a health-check / load-balancing group exists in the JSON as soon as one of its options is written, also with the value
+	// zero (which `omitempty` then leaves out of the group): `present` records that
+	present := map[string]bool{}
+	group := func(into map[string]any) string {
+		switch fmt.Sprintf("%p", into) {
+		case fmt.Sprintf("%p", active):
+			return "active"
+		case fmt.Sprintf("%p", passive):
+			return "passive"
+		}
+		return "lb"
+	}
 	addDur := func(name string, into map[string]any, key string) {
+		present[group(into)] = true
+		if r.intn(6) == 0 {
+			opts = append(opts, name+" 0")
+			return
+		}
 		t, ns := durTok(r)
 		opts = append(opts, name+" "+t)
 		into[key] = ns
 	}
 	addInt := func(name string, into map[string]any, key string) {
+		present[group(into)] = true
+		if r.intn(6) == 0 {
+			opts = append(opts, name+" 0")
+			return
+		}
 		v := 1 + r.intn(9000)
 		opts = append(opts, fmt.Sprintf("%s %d", name, v))
 		into[key] = v
@@ -363,16 +385,16 @@ func genProxy(r *vrng) cleaf {
 	}
 	// the order of the options in the block is free
 	shuffleKeepingUpstreamOrder(r, opts)
-	if len(active) > 0 {
+	if present["active"] {
 		hc["active"] = active
 	}
-	if len(passive) > 0 {
+	if present["passive"] {
 		hc["passive"] = passive
 	}
 	if len(hc) > 0 {
 		j["health_checks"] = hc
 	}
-	if len(lb) > 0 {
+	if present["lb"] || len(lb) > 0 {
 		j["load_balancing"] = lb
 	}
 	j["upstreams"] = ups
